@@ -896,6 +896,204 @@ def register_whole(R):
                               "leave/invariant-preserved/the-value-of-a-left-node-lists-every-entered-tip-below-it": gp_hint_leave}),
           notes="whole function, trees of any size (traverse client rule with list-valued callback results); the input tree is frozen")
 
+    # ================================================================ Tree.get_branches as a whole
+    # property: "The branches of a tree partition its edges: every edge lies in exactly one branch, each branch starts at the root or a
+    # furcation, ends at a furcation or a tip, and has only pass-through nodes in between."
+    # Value handed through the traversal: leave -> (closed branches below the node, pending chain from the last closed end up to the node).
+    # History functions (immutable; defined by ghost code right after the real `leave` call of x) name the value x returned:
+    #   hn9(x) / hLEN9(x, i) / hB9(x, i, j): number of closed branches, length of the i-th, its j-th node;  hlc9(x) / hc9(x, j): the chain
+    hn9, hlc9 = z3.Function("hn9", I_, I_), z3.Function("hlc9", I_, I_)
+    hLEN9, hc9 = z3.Function("hLEN9", I_, I_, I_), z3.Function("hc9", I_, I_, I_)
+    hB9 = z3.Function("hB9", I_, I_, I_, I_)
+
+    def gb_branch_fixed(E):
+        t = E.traverse_client_frame.lookup("self")
+        from swcgeom.core.swc_utils import get_types
+
+        return t, dict(attach=t, names=t.fields["names"], source=t.fields["source"], types=get_types())
+
+    def gb_leave_kind(E):
+        from swcgeom.core.tree import Tree
+
+        t, fixed = gb_branch_fixed(E)
+        n = z3.Int(fresh_name("nbr"))
+        ln, i = z3.Const(fresh_name("brlen"), X.AII), z3.Int(fresh_name("i"))
+        E.assume(z3.And(n >= 0, z3.ForAll([i], sel(ln, i) >= 0)))
+        b = X.BranchSeq.make(None, ln, n, Tree.Branch, fixed, "closed")
+        c = PList.fresh("int", name="pending")
+        E.assume(zint(c.n) >= 0)
+        return (b, c)
+
+    def gb_leave_args(E, K):
+        from swcgeom.core.tree import Tree
+
+        t, fixed = gb_branch_fixed(E)
+        a = X.PairList(E, K, Tree.Branch, fixed, "pre")
+        return a, a.view
+
+    def bs_view(b):
+        if isinstance(b, X.BranchSeq):
+            return b.cols[0], b.cols[1], zint(b.n)
+        if isinstance(b, PList) and b.items == []:
+            return z3.K(I_, z3.K(I_, z3.IntVal(0))), z3.K(I_, z3.IntVal(0)), z3.IntVal(0)
+        return None
+
+    def gb_value(val):
+        if not (isinstance(val, tuple) and len(val) == 2 and isinstance(val[1], PList) and not isinstance(val[1], (X.LList, X.BranchSeq)) and (val[1].items is not None or val[1].kinds == ["int"])):
+            return None
+        bv = bs_view(val[0])
+        if bv is None:
+            return None
+        return bv + list_view8(val[1])
+
+    def gb_good(x, ctx):
+        """the value recorded for x is well formed (in terms of the history functions): (label, formula) list"""
+        P, R_, nk = ctx.P, ctx.R, ctx.nkids
+        i, j = z3.Int(fresh_name("i")), z3.Int(fresh_name("j"))
+        n, lc = hn9(x), hlc9(x)
+        L, b, c = (lambda a: hLEN9(x, a)), (lambda a, e: hB9(x, a, e)), (lambda e: hc9(x, e))
+        ini = z3.And(0 <= i, i < n)
+        return [
+            ("the-pending-chain-ends-at-the-node", z3.And(n >= 0, lc >= 1, c(lc - 1) == x)),
+            ("the-pending-chain-climbs-from-child-to-parent", z3.ForAll([j], z3.Implies(z3.And(0 <= j, j < lc - 1), z3.And(R_(c(j)), sel(P, c(j)) == c(j + 1))), patterns=[c(j)])),
+            ("the-pending-chain-starts-at-a-tip-or-furcation-and-continues-through-pass-through-nodes",
+             z3.And(nk(c(0)) != 1, z3.ForAll([j], z3.Implies(z3.And(1 <= j, j < lc), nk(c(j)) == 1), patterns=[c(j)]))),
+            ("every-closed-branch-starts-at-a-furcation-and-ends-at-a-furcation-or-tip",
+             z3.ForAll([i], z3.Implies(ini, z3.And(L(i) >= 2, nk(b(i, 0)) >= 2, nk(b(i, L(i) - 1)) != 1)), patterns=[L(i)])),
+            ("every-closed-branch-descends-from-parent-to-child",
+             z3.ForAll([i, j], z3.Implies(z3.And(ini, 0 <= j, j < L(i)), z3.And(R_(b(i, j)), z3.Implies(j >= 1, sel(P, b(i, j)) == b(i, j - 1)))), patterns=[b(i, j)])),
+            ("every-closed-branch-has-only-pass-through-nodes-inside",
+             z3.ForAll([i, j], z3.Implies(z3.And(ini, 1 <= j, j < L(i) - 1), nk(b(i, j)) == 1), patterns=[b(i, j)]))]
+
+    def gb_Ql(E, v, x, val, ctx):
+        vw = gb_value(val)
+        if vw is None:
+            return False
+        IDX, LEN, n, C, lc = vw
+        i, j = z3.Int(fresh_name("i")), z3.Int(fresh_name("j"))
+        return [("the-value-is-the-recorded-one",
+                 z3.And(n == hn9(x), lc == hlc9(x),
+                        z3.ForAll([i], sel(LEN, i) == hLEN9(x, i), patterns=[sel(LEN, i)]),
+                        z3.ForAll([i, j], sel(sel(IDX, i), j) == hB9(x, i, j), patterns=[sel(sel(IDX, i), j)]),
+                        z3.ForAll([j], sel(C, j) == hc9(x, j), patterns=[sel(C, j)])))] + gb_good(x, ctx)
+
+    def gb_ghost_leave(E, v, x, ctx):
+        """definitions of the history functions of THIS leave call (x is left exactly once)"""
+        vw = gb_value(E.ghost["traverse-last-call"]["ret"])
+        if vw is None:
+            raise X.Unsupported("get_branches: the leave callback returned something that is not (list of branches, int list)")
+        IDX, LEN, n, C, lc = vw
+        i, j = z3.Int(fresh_name("i")), z3.Int(fresh_name("j"))
+        E.assume(z3.And(hn9(x) == n, hlc9(x) == lc))
+        E.assume(z3.ForAll([i], hLEN9(x, i) == sel(LEN, i), patterns=[hLEN9(x, i)]))
+        E.assume(z3.ForAll([i, j], hB9(x, i, j) == sel(sel(IDX, i), j), patterns=[hB9(x, i, j)]))
+        E.assume(z3.ForAll([j], hc9(x, j) == sel(C, j), patterns=[hc9(x, j)]))
+        E.assumptions.add("ghost definitions per leave call of get_branches: hn9 / hLEN9 / hB9 / hlc9 / hc9 name the value (closed branches, pending chain) the callback returned for x")
+
+    # ---- the loop of the callback: after k children,  branches = for each child k' < k: [node + its chain reversed] + its closed branches reversed
+    def cb_loop_vocab(E, v):
+        pre, br = v["pre"], v["branches"]
+        if not isinstance(pre, X.PairList):
+            raise X.Unsupported("collect_branches: `pre` is not the list of child results of the traverse rule")
+        bv = bs_view(br)
+        if bv is None:
+            raise X.Unsupported("collect_branches: `branches` is not a list of branches")
+        x = to_z3(v["node"].fields["idx"], "int")
+        return pre, bv, x, to_z3(v["_k0"], "int")
+
+    def cb_inv(which):
+        def f(E, v, o):
+            pre, (IDX, LEN, n), x, k = cb_loop_vocab(E, v)
+            BIDX, BLEN, BN, CH, CN = pre.cols
+            loff = pre.loff
+            k1, i, j = z3.Int(fresh_name("k")), z3.Int(fresh_name("i")), z3.Int(fresh_name("j"))
+            p = loff(k1) + i
+            blk = z3.And(0 <= k1, k1 < k, 0 <= i, i <= sel(BN, k1))
+            if which == "count":
+                return n == loff(k)
+            if which == "lengths":
+                return z3.ForAll([k1, i], z3.Implies(blk, sel(LEN, p) == z3.If(i == 0, sel(CN, k1) + 1, sel(sel(BLEN, k1), sel(BN, k1) - i))))
+            if which == "contents":
+                return z3.ForAll([k1, i, j], z3.Implies(z3.And(blk, 0 <= j, j < sel(LEN, p)),
+                                                        sel(sel(IDX, p), j) == z3.If(i == 0, z3.If(j == 0, x, sel(sel(CH, k1), sel(CN, k1) - j)), sel(sel(sel(BIDX, k1), sel(BN, k1) - i), j))))
+            raise KeyError(which)
+
+        return f
+
+    CB_LOOP = dict(invariant=[("as-many-branches-as-the-children-so-far-contribute", cb_inv("count")),
+                              ("per-child-first-the-branch-closed-at-the-node-then-its-closed-branches-reversed-lengths", cb_inv("lengths")),
+                              ("per-child-first-the-branch-closed-at-the-node-then-its-closed-branches-reversed-contents", cb_inv("contents"))],
+                   types={"branches": X.branch_seq_empty})
+
+    def gb_result(v):
+        from swcgeom.core.tree import Tree
+
+        res = v["result"]
+        if not (isinstance(res, X.BranchSeq) and res.cls_ is Tree.Branch):
+            return None
+        return res
+
+    def one_child(t, x):
+        """exactly one row names x as parent"""
+        r, r2 = z3.Int(fresh_name("r")), z3.Int(fresh_name("r2"))
+        P, n = col(t, "pid").arr, nof(t)
+        return z3.Exists([r], z3.And(0 <= r, r < n, sel(P, r) == x, z3.ForAll([r2], z3.Implies(z3.And(0 <= r2, r2 < n, sel(P, r2) == x), r2 == r))))
+
+    def gbw_post(which):
+        def f(E, v, o):
+            t = o["self"]
+            res = gb_result(v)
+            if res is None:
+                return False
+            E.ghost["gb-result"] = res
+            if which == "branches-attached-to-this-tree":
+                return res.fixed.get("attach") is v["self"] and res.fixed.get("names") is t.fields["names"]
+            IDX, LEN, m = res.cols[0], res.cols[1], zint(res.n)
+            P, n = col(t, "pid").arr, nof(t)
+            i, j = z3.Int(fresh_name("i")), z3.Int(fresh_name("j"))
+            ini = z3.And(0 <= i, i < m)
+            at = lambda a, b: sel(sel(IDX, a), b)
+            if which == "every-branch-has-an-edge-and-consecutive-entries-are-parent-and-child":
+                return z3.And(z3.ForAll([i], z3.Implies(ini, sel(LEN, i) >= 2)),
+                              z3.ForAll([i, j], z3.Implies(z3.And(ini, 0 <= j, j < sel(LEN, i)), z3.And(0 <= at(i, j), at(i, j) < n, z3.Implies(j >= 1, sel(P, at(i, j)) == at(i, j - 1))))))
+            if which == "every-branch-starts-at-the-root-or-a-furcation":
+                return z3.ForAll([i], z3.Implies(ini, z3.Or(at(i, 0) == 0, two_rows(t, at(i, 0)))))
+            if which == "every-branch-ends-at-a-furcation-or-a-tip":
+                e = at(i, sel(LEN, i) - 1)
+                return z3.ForAll([i], z3.Implies(ini, z3.Or(two_rows(t, e), no_child(t, e))))
+            if which == "interior-nodes-are-pass-through":
+                return z3.ForAll([i, j], z3.Implies(z3.And(ini, 1 <= j, j < sel(LEN, i) - 1), one_child(t, at(i, j))))
+            raise KeyError(which)
+
+        return f
+
+    def gbw_hint(E, vars):
+        """child counts in terms of rows (from the definition of kid / rank)"""
+        ctx = E.ghost["last-traverse-ctx"]
+        t = vars["self"]
+        P, n = col(t, "pid").arr, nof(t)
+        x, a, b = z3.Int(fresh_name("x")), z3.Int(fresh_name("a")), z3.Int(fresh_name("b"))
+        k0, k1 = ctx.kid(x, 0), ctx.kid(x, 1)
+        voc = [ctx.nkids, ctx.kid, ctx.rank, ctx.P, ctx.n, col(t, "id").arr]
+        st = lambda nm, f_: X.prove_in_vocabulary(E, f"Tree.get_branches/step/{nm}", f_, voc)
+        st("the-first-two-children-are-two-rows-naming-the-node-as-parent",
+           z3.ForAll([x], z3.Implies(z3.And(ctx.R(x), ctx.nkids(x) > 1), z3.And(0 <= k0, k0 < k1, k1 < n, sel(P, k0) == x, sel(P, k1) == x)), patterns=[ctx.nkids(x)]))
+        st("a-node-with-two-or-more-children-is-a-furcation", z3.ForAll([x], z3.Implies(z3.And(ctx.R(x), ctx.nkids(x) > 1), two_rows(t, x)), patterns=[ctx.nkids(x)]))
+        st("no-row-names-a-node-without-children-as-parent", z3.ForAll([x, a], z3.Implies(z3.And(ctx.R(x), ctx.nkids(x) == 0, 0 <= a, a < n), sel(P, a) != x)))
+        st("a-node-without-children-is-a-tip", z3.ForAll([x], z3.Implies(z3.And(ctx.R(x), ctx.nkids(x) == 0), no_child(t, x)), patterns=[ctx.nkids(x)]))
+        st("the-only-child-is-the-only-row-naming-the-node-as-parent",
+           z3.ForAll([x, a], z3.Implies(z3.And(ctx.R(x), ctx.nkids(x) == 1, 0 <= a, a < n, sel(P, a) == x), z3.And(a == k0, ctx.R(k0), sel(P, k0) == x))))
+        st("a-node-with-one-child-is-a-pass-through-node", z3.ForAll([x], z3.Implies(z3.And(ctx.R(x), ctx.nkids(x) == 1), one_child(t, x)), patterns=[ctx.nkids(x)]))
+
+    GBW = ["branches-attached-to-this-tree", "every-branch-has-an-edge-and-consecutive-entries-are-parent-and-child", "every-branch-starts-at-the-root-or-a-furcation",
+           "every-branch-ends-at-a-furcation-or-a-tip", "interior-nodes-are-pass-through"]
+    R.add(f"{TREE}:Tree.get_branches", prop="C08", setup=lambda S: dict(self=wf_tree8(S)),
+          ensures=[(w, gbw_post(w)) for w in GBW],
+          inlined_loops={f"{TREE}:Tree.get_branches.<locals>.collect_branches": {0: CB_LOOP}},
+          options=dict(OPTS, traverse_rule=Rule(lambda E, v, ENT, LEFT, ctx: True, Ql=gb_Ql, leave_kind=gb_leave_kind, leave_args=gb_leave_args, ghost_leave=gb_ghost_leave),
+                       hints={"post/every-branch-starts-at-the-root-or-a-furcation": gbw_hint}),
+          notes="whole function, trees of any size (traverse client rule with (list of branches, chain) leave values; loop of the callback cut at an invariant); the input tree is frozen")
+
 
 def _fresh_frozen_ints(E):
     n = z3.Int(fresh_name("pre_len"))
